@@ -35,6 +35,8 @@ type Document struct {
 	nextImageID int
 	// 打开的文档中 styles.xml 关系原有的ID（为空表示使用 rId1）
 	stylesRelationshipID string
+	// 打开的文档里 styles 关系的目标写法（"styles.xml" 或绝对写法 "/word/styles.xml"）：保存时原样写回
+	stylesRelationshipTarget string
 	// styles.xml 是否由本库根据样式管理器生成（而不是来自打开的文档/模板）
 	stylesGenerated bool
 	// stylesBaseline 记录打开/克隆文档时样式管理器里每个样式的序列化结果。styles.xml 原文保留的文档
@@ -3420,7 +3422,7 @@ func (d *Document) serializeDocumentRelationships() {
 		{
 			ID:     d.stylesRelationshipIDForSave(),
 			Type:   "http://schemas.openxmlformats.org/officeDocument/2006/relationships/styles",
-			Target: "styles.xml",
+			Target: d.stylesRelationshipTargetForSave(),
 		},
 	}
 
@@ -3435,6 +3437,14 @@ func (d *Document) serializeDocumentRelationships() {
 
 	data, _ := xml.MarshalIndent(docRels, "", "  ")
 	d.parts["word/_rels/document.xml.rels"] = append([]byte(xml.Header), data...)
+}
+
+// stylesRelationshipTargetForSave 返回 styles 关系的目标：打开文档时原有的写法（指向 word/styles.xml 的），否则 "styles.xml"
+func (d *Document) stylesRelationshipTargetForSave() string {
+	if d.stylesRelationshipTarget == "/word/styles.xml" {
+		return d.stylesRelationshipTarget
+	}
+	return "styles.xml"
 }
 
 // stylesRelationshipIDForSave 返回 styles.xml 关系使用的ID：
@@ -3872,6 +3882,7 @@ func (d *Document) parseDocumentRelationships() error {
 		} else if d.stylesRelationshipID == "" {
 			// 记住原有的ID，保存时原样写回
 			d.stylesRelationshipID = rel.ID
+			d.stylesRelationshipTarget = rel.Target
 		}
 	}
 
